@@ -397,3 +397,161 @@ Section Iterate.
         * cbn [cur_prev cur_valid negb]. apply Hwalk. cbn [cur_back]. reflexivity.
   Qed.
 End Iterate.
+
+Lemma prefix_limit_some x rest : x < 255 -> exists inc, prefix_limit (x :: rest) = Some inc.
+Proof.
+  intros Hx. cbn. destruct (prefix_limit rest); [eauto|]. apply N.ltb_lt in Hx. rewrite Hx. eauto.
+Qed.
+
+Lemma ikey_prefix i p s : has_prefix (ikey i p) (ikey i s) = has_prefix p s.
+Proof. unfold ikey. cbn. now rewrite N.eqb_refl. Qed.
+
+Theorem shed_iterate_spec db i start skip pfx rv cb :
+  sorted_db db -> keys_bytes db -> isbytes (ikey i pfx) -> i < 255 ->
+  (forall s, start = Some s -> has_prefix pfx s = true /\ isbytes (ikey i s)) ->
+  (start = None -> skip = false) ->
+  shed_iterate db i start skip pfx rv cb =
+  to_res (walk cb 0 (map strip (ref_select db (ikey i pfx) (option_map (ikey i) start) skip rv))).
+Proof.
+  intros Hs Hkb Htot Hi Hstart Hskip. unfold shed_iterate.
+  assert (Hne : ikey i pfx <> []) by discriminate.
+  destruct start as [s|]; cbn [option_map ref_select].
+  - destruct (Hstart s eq_refl) as [Hp Hsb].
+    assert (Hp' : has_prefix (ikey i pfx) (ikey i s) = true) by now rewrite ikey_prefix.
+    assert (Hsne : ikey i s <> []) by discriminate.
+    destruct rv.
+    + pose proof (iterate_rev_start db (ikey i pfx) Hs Hkb Htot (ikey i s) skip cb Hp' Hsb Hsne) as H.
+      destruct (iter_position db (ikey i pfx) (ikey i s) true true); [exact H | contradiction].
+    + unfold iter_position. exact (iterate_fwd db (ikey i pfx) Hs Hkb Htot (ikey i s) skip cb Hp' Hsne).
+  - rewrite (Hskip eq_refl). cbn [andb]. destruct rv.
+    + destruct (prefix_limit_some i pfx Hi) as [inc Hinc].
+      pose proof (iterate_rev_nostart db (ikey i pfx) Hs Hkb Htot inc cb Hinc) as H.
+      destruct (iter_position db (ikey i pfx) (ikey i pfx) false true) as [it|r]; [exact H|].
+      destruct H as [-> Hnil]. rewrite Hnil. reflexivity.
+    + unfold iter_position.
+      pose proof (iterate_fwd db (ikey i pfx) Hs Hkb Htot (ikey i pfx) false cb (has_prefix_refl _) Hne) as H.
+      cbn [andb] in H. rewrite H. do 3 f_equal. apply filter_ext_kv. intros e.
+      unfold pfx_of, kge. destruct (has_prefix (ikey i pfx) (fst e)) eqn:E; [|reflexivity].
+      now rewrite (has_prefix_ble _ _ E).
+Qed.
+
+(** * First, Last, Count, CountFrom *)
+
+Section FirstLast.
+  Variables (db : list kv) (total : bytes).
+  Hypothesis Hs : sorted_db db.
+  Hypothesis Hkb : keys_bytes db.
+  Hypothesis Htot : isbytes total.
+  Hypothesis Hne : total <> [].
+
+  Lemma take_while_ge_total : take_while (pfx_of total) (filter (kge total) db) = filter (pfx_of total) db.
+  Proof.
+    rewrite (filter_ext_kv (kge total) (fun e => negb (klt total e))) by (intros; apply kge_negb_klt).
+    rewrite (take_while_hi db total Hs Hkb Htot (klt total)).
+    - apply filter_ext_kv. intros e. rewrite <- kge_negb_klt. unfold pfx_of, kge.
+      destruct (has_prefix total (fst e)) eqn:E; [|reflexivity]. now rewrite (has_prefix_ble _ _ E).
+    - intros e He Hd. now rewrite kge_negb_klt, Hd.
+  Qed.
+
+  Lemma item_from_cursor c (l : list kv) :
+    (cur_valid c = true -> exists x t, l = x :: t /\ cur_key c = fst x /\ cur_value c = snd x) ->
+    (cur_valid c = false -> l = []) ->
+    item_from_iterator c total = option_map strip (hd_error (take_while (pfx_of total) l)).
+  Proof.
+    intros Hv Hi. unfold item_from_iterator. destruct c as [l0|r|b x a].
+    - rewrite (Hi eq_refl). cbn. destruct total; [contradiction | reflexivity].
+    - rewrite (Hi eq_refl). cbn. destruct total; [contradiction | reflexivity].
+    - destruct (Hv eq_refl) as (y & t & -> & Hk & Hvv). rewrite Hk, Hvv. cbn [take_while]. unfold pfx_of.
+      destruct (has_prefix total (fst y)); [|reflexivity]. cbn. now destruct y.
+  Qed.
+
+  Lemma first_spec : item_from_iterator (search db total) total = option_map strip (hd_error (filter (pfx_of total) db)).
+  Proof.
+    rewrite <- take_while_ge_total. apply item_from_cursor; unfold search; rewrite (seek_sorted total db Hs);
+      destruct (filter (kge total) db) as [|x a]; cbn; try discriminate; auto.
+    intros _. exists x, a. auto.
+  Qed.
+
+  Lemma last_spec inc it : prefix_limit total = Some inc -> cur_items it = db ->
+    item_from_iterator (cur_prev (cur_seek it inc)) total = option_map strip (hd_error (rev (filter (pfx_of total) db))).
+  Proof.
+    intros Hlim Hit.
+    assert (Hloeq : filter (pfx_of total) db = filter (fun e => pfx_of total e && klt inc e) db).
+    { apply filter_ext_in'. intros e He. destruct (pfx_of total e) eqn:Ep; [|reflexivity].
+      pose proof (pfx_below db total Hkb Htot e He Ep) as Hb. rewrite Hlim in Hb. cbn in Hb. unfold klt. now rewrite Hb. }
+    rewrite Hloeq. rewrite <- (take_while_lo db total Hs Hkb Htot (klt inc)).
+    2:{ intros e He Hd. rewrite Hlim. exact Hd. }
+    unfold cur_seek. rewrite Hit, (seek_sorted inc db Hs).
+    set (c := cur_prev match filter (kge inc) db with
+                       | [] => CEOI (rev (filter (klt inc) db))
+                       | x :: a => CAt (rev (filter (klt inc) db)) x a
+                       end).
+    assert (Hb : cur_back c = rev (filter (klt inc) db)).
+    { unfold c. destruct (filter (kge inc) db); [apply cur_back_prev_eoi | apply cur_back_prev_at]. }
+    apply item_from_cursor.
+    - intros Hv. destruct c as [l0|r|b x a]; try discriminate. cbn in Hb. exists x, b. rewrite <- Hb. auto.
+    - intros Hv. rewrite <- Hb. destruct c; try reflexivity. discriminate.
+  Qed.
+End FirstLast.
+
+Theorem shed_first_spec db i p : sorted_db db -> keys_bytes db -> isbytes (ikey i p) ->
+  shed_first db i p = option_map strip (hd_error (filter (pfx_of (ikey i p)) db)).
+Proof. intros Hs Hkb Hb. apply first_spec; auto. discriminate. Qed.
+
+Theorem shed_last_spec db i p : sorted_db db -> keys_bytes db -> isbytes (ikey i p) -> i < 255 ->
+  shed_last db i p = option_map strip (hd_error (rev (filter (pfx_of (ikey i p)) db))).
+Proof.
+  intros Hs Hkb Hb Hi. unfold shed_last, bytes_increment. destruct (prefix_limit_some i p Hi) as [inc Hinc].
+  unfold ikey in *. rewrite Hinc. apply last_spec; auto; [discriminate|].
+  unfold search. now rewrite seek_from_items.
+Qed.
+
+Lemma count_loop_spec i : forall fuel c acc, (length (cur_rest c) < fuel)%nat ->
+  (forall e, In e (cur_rest c) -> fst e <> []) ->
+  count_loop fuel i c acc = Some (acc + N.of_nat (length (take_while (pfx_of [i]) (cur_rest c)))).
+Proof.
+  induction fuel as [|f IH]; intros c acc Hf Hne; [lia|].
+  destruct c as [l|r|b x a]; cbn [count_loop cur_valid cur_rest take_while length]; try (f_equal; lia).
+  cbn [cur_key]. pose proof (Hne x (or_introl eq_refl)) as Hx. destruct x as [[|b0 k] v]; [contradiction|].
+  cbn [fst]. unfold pfx_of at 1. cbn [fst has_prefix]. rewrite andb_true_r, (N.eqb_sym i b0).
+  destruct (b0 =? i); [|cbn; f_equal; lia].
+  rewrite IH.
+  - rewrite cur_rest_next_at. cbn [length]. f_equal. lia.
+  - rewrite cur_rest_next_at. cbn in Hf. lia.
+  - rewrite cur_rest_next_at. intros e He. apply Hne. now right.
+Qed.
+
+Lemma ge_nonempty t db e : t <> [] -> In e (filter (kge t) db) -> fst e <> [].
+Proof.
+  intros Ht He. apply filter_In in He as [_ He]. unfold kge in He. intros E. rewrite E in He.
+  destruct t; [contradiction | discriminate].
+Qed.
+
+Theorem shed_count_from_spec db i k : sorted_db db -> keys_bytes db -> isbyte i ->
+  shed_count_from db i k = Some (N.of_nat (length (filter (fun e => pfx_of [i] e && kge (ikey i k) e) db))).
+Proof.
+  intros Hs Hkb Hi. unfold shed_count_from, search. rewrite (seek_sorted (ikey i k) db Hs).
+  assert (Hrest : cur_rest (match filter (kge (ikey i k)) db with
+                            | [] => CEOI (rev (filter (klt (ikey i k)) db))
+                            | x :: a => CAt (rev (filter (klt (ikey i k)) db)) x a
+                            end) = filter (kge (ikey i k)) db) by (destruct (filter (kge (ikey i k)) db); reflexivity).
+  rewrite count_loop_spec; rewrite Hrest.
+  - cbn [N.add]. do 3 f_equal.
+    rewrite (filter_ext_kv (kge (ikey i k)) (fun e => negb (klt (ikey i k) e))) by (intros; apply kge_negb_klt).
+    assert (Hib : isbytes [i]) by (constructor; [exact Hi | constructor]).
+    rewrite (take_while_hi db [i] Hs Hkb Hib (klt (ikey i k))).
+    + apply filter_ext_kv. intros e. now rewrite kge_negb_klt.
+    + intros e He Hd. unfold klt in Hd. apply blt_false_ble in Hd. unfold kge.
+      eapply ble_trans; [|exact Hd]. apply has_prefix_ble. unfold ikey. cbn. now rewrite N.eqb_refl.
+  - pose proof (@filter_length_le kv (kge (ikey i k)) db) as H. unfold kv in *. lia.
+  - intros e He. eapply ge_nonempty; [|exact He]. discriminate.
+Qed.
+
+Theorem shed_count_spec db i : sorted_db db -> keys_bytes db -> isbyte i ->
+  shed_count db i = Some (N.of_nat (length (filter (pfx_of [i]) db))).
+Proof.
+  intros Hs Hkb Hi. pose proof (shed_count_from_spec db i [] Hs Hkb Hi) as H.
+  unfold shed_count_from, ikey in H. unfold shed_count. rewrite H. do 3 f_equal.
+  apply filter_ext_kv. intros e. unfold pfx_of, kge.
+  destruct (has_prefix [i] (fst e)) eqn:E; [|reflexivity]. now rewrite (has_prefix_ble _ _ E).
+Qed.
